@@ -276,7 +276,15 @@ func (e *Engine) step(s *State) []*State {
 			r := e.newRef(s)
 			p := e.ptrFromRef(r, t)
 			f.env[x] = p
-			e.store(s, p, e.zero(s, t))
+			if at, isArr := t.Underlying().(*types.Array); isArr && elemPrefix(at.Elem()) != "" {
+				// an array of structs / slices / strings (e.g. the backing array of make([]T, 0, 4)): zero every leaf
+				for _, l := range elemLeaves(at.Elem(), elemPrefix(at.Elem())) {
+					m := e.leafArr(s, l)
+					e.hset(s, l.name, e.name(s, sto(m, r, constArr(l.sort))), HWrite{Ref: r, Val: constArr(l.sort), Whole: true})
+				}
+			} else {
+				e.store(s, p, e.zero(s, t))
+			}
 			f.entry["$ptr:"+x.Comment] = p
 		}
 	case *ssa.Store:
@@ -1522,6 +1530,8 @@ func (e *Engine) callFn(s *State, f *Frame, fn *ssa.Function, args []Val, bind [
 				case PtrV:
 					if !v.Nil && (v.Kind == "hcell" || v.Kind == "arr") {
 						e.havocPtr(s, v)
+					} else if !v.Nil && v.Kind == "struct" && len(v.Path) == 0 {
+						e.havocArg(s, v) // json.Unmarshal(payload, &msg) and the like fill the struct they are handed
 					}
 				}
 			}
